@@ -155,7 +155,8 @@ def run(ck):
 
     # ---------- E ----------
     pd = os.path.join(ck.work, "probes")
-    e2e.write_module(pd, {"main.go": open(os.path.join(H, "prog", "main.go")).read()})
+    cs = assertgen.cases()
+    e2e.write_module(pd, {"main.go": open(os.path.join(H, "prog", "main.go")).read(), "assert.go": assertgen.program(cs, "runAsserts")})
     r1, o1 = L.build(pd, os.path.join(pd, "p_llgo"), timeout=1500)
     r2, o2 = e2e.go_build(pd, os.path.join(pd, "p_go"))
     nlines = 0
@@ -245,17 +246,11 @@ def run(ck):
     ck.phase("probes done")
 
     # ---------- type assertions: matrix program vs Coq model (C03.Assert) and vs go; emitted test kind from the IR ----------
-    cs = assertgen.cases()
-    ad = os.path.join(ck.work, "assert")
-    e2e.write_module(ad, {"main.go": assertgen.program(cs)})
-    r1, o1 = L.build(ad, os.path.join(ad, "p_llgo"), timeout=1500)
-    r2, o2 = e2e.go_build(ad, os.path.join(ad, "p_go"))
+    ad = pd
     n_assert = 0
-    if r1 != 0 or r2 != 0:
-        ck.correspondence_broken("e2e-assert-build", (o1 + o2)[-2000:])
-    else:
-        a = L.run_bin(os.path.join(ad, "p_llgo"), timeout=120)
-        b = e2e.run_plain(os.path.join(ad, "p_go"), timeout=120)
+    if r1 == 0 and r2 == 0:
+        a = L.run_bin(os.path.join(pd, "p_llgo"), ["assert"], timeout=120)
+        b = e2e.run_plain(os.path.join(pd, "p_go"), ["assert"], timeout=120)
 
         def outcomes(text):
             d = {}
